@@ -21,12 +21,21 @@ def make_variant(spec, arg):
     d = tempfile.mkdtemp(prefix="svgdx-variant-")
     subprocess.check_call(["rsync", "-a", "--exclude", "target", "--exclude", ".git", "/repo/", d + "/"])
     if spec == "patch":
-        p = subprocess.run(["git", "apply", "--unsafe-paths", "--directory", d, os.path.abspath(arg)], cwd="/", capture_output=True, text=True)
+        base = None
+        meta = os.path.join(os.path.dirname(os.path.abspath(arg)), "meta.json")
+        if os.path.exists(meta):
+            base = json.load(open(meta)).get("base_commit")
+        p = subprocess.run(["patch", "-p1", "-s", "--dry-run", "-i", os.path.abspath(arg)], cwd=d, capture_output=True, text=True)
+        if p.returncode != 0 and base:
+            # the patch was written against an older commit of /repo: build the variant from that tree
+            shutil.rmtree(os.path.join(d, "src"))
+            tar = subprocess.check_output(["git", "-C", "/repo", "archive", base, "src", "Cargo.toml", "Cargo.lock"])
+            subprocess.run(["tar", "-x", "-C", d], input=tar, check=True)
+            print(f"(patch applied to its base commit {base})")
+        p = subprocess.run(["patch", "-p1", "-s", "-i", os.path.abspath(arg)], cwd=d, capture_output=True, text=True)
         if p.returncode != 0:
-            p = subprocess.run(["patch", "-p1", "-s", "-i", os.path.abspath(arg)], cwd=d, capture_output=True, text=True)
-            if p.returncode != 0:
-                shutil.rmtree(d)
-                raise RuntimeError("patch does not apply: " + p.stderr + p.stdout)
+            shutil.rmtree(d)
+            raise RuntimeError("patch does not apply: " + p.stderr + p.stdout)
     elif spec == "rev":
         diff = subprocess.check_output(["git", "-C", "/repo", "show", "-R", "--format=", arg, "--", "src"], text=True)
         p = subprocess.run(["patch", "-p1", "-s"], cwd=d, input=diff, capture_output=True, text=True)
